@@ -7,6 +7,7 @@ package main
 import (
 	"bytes"
 	"encoding/json"
+	"sync"
 
 	"github.com/pion/rtp"
 	"github.com/pion/rtp/codecs"
@@ -27,6 +28,7 @@ type c08Case struct {
 	Calls    []c08Call `json:"calls"`
 	Scribble bool      `json:"scribble"`
 	Class    string    `json:"class"`
+	Parallel bool      `json:"parallel"` // afterwards the same history runs on four more instances, each in its own goroutine
 }
 
 func newPayloaderOpt(kind string) rtp.Payloader {
@@ -67,6 +69,52 @@ func runC08(raw json.RawMessage, w *Writer) {
 		snap  [][]byte // their content at return time
 	}
 	var hs []held
+	var seqOut [][][]byte // what every call returned, at return time
+	var seqIn [][]byte    // what every call was given
+	defer func() {
+		// independent instances used at the same time (one payloader per track, each on its own goroutine) must
+		// behave as one instance used alone: package-level scratch state shared between instances would show here
+		if !c.Parallel || len(seqOut) != len(c.Calls) {
+			return
+		}
+		const G = 4
+		bad := make([]bool, G)
+		var wg sync.WaitGroup
+		start := make(chan struct{})
+		for g := 0; g < G; g++ {
+			wg.Add(1)
+			go func(g int) {
+				defer wg.Done()
+				defer func() {
+					if recover() != nil {
+						bad[g] = true
+					}
+				}()
+				q := newPayloaderOpt(c.Kind)
+				<-start
+				for k, call := range c.Calls {
+					frags := q.Payload(uint16(call.Mtu), cloneBytes(seqIn[k]))
+					if len(frags) != len(seqOut[k]) {
+						bad[g] = true
+						return
+					}
+					for i := range frags {
+						if !bytes.Equal(frags[i], seqOut[k][i]) {
+							bad[g] = true
+							return
+						}
+					}
+				}
+			}(g)
+		}
+		close(start)
+		wg.Wait()
+		ok := true
+		for _, b := range bad {
+			ok = ok && !b
+		}
+		w.Emit(Ev{"ev": "parallel", "instances": G, "same_as_alone": ok})
+	}()
 	var inputs [][]byte
 	// an encoder-style caller: one backing buffer, refilled for every call (so every new input
 	// overwrites the memory of the previous ones with plausible data, not only with the scribble byte)
@@ -126,6 +174,8 @@ func runC08(raw json.RawMessage, w *Writer) {
 			return
 		}
 		hs = append(hs, held{frags: frags, snap: cloneFrags(frags)})
+		seqOut = append(seqOut, cloneFrags(frags))
+		seqIn = append(seqIn, pristine)
 		inputs = append(inputs, input)
 		if c.Scribble {
 			// the caller reuses every buffer it passed so far
